@@ -34,7 +34,7 @@ class ExactNode(Node):
         """
         Returns a service time for the given customer class
         """
-        return Decimal(
+        return +Decimal(
             str(
                 self.simulation.service_times[self.id_number][
                     ind.customer_class
@@ -60,7 +60,7 @@ class ExactArrivalNode(ArrivalNode):
         """
         Samples the inter-arrival time for next class and node.
         """
-        return Decimal(
+        return +Decimal(
             str(
                 self.simulation.inter_arrival_times[nd][clss]._sample(
                     self.simulation.current_time
